@@ -13,7 +13,8 @@ TextBodies == { S(<<"a">>), S(<<"a", "b", "c">>) }
 (* bytes that are not the encoding of any JSON value *)
 RawBodies == { [t |-> "raw", s |-> "{\"q\":"] }
 
-CTs == { [absent |-> TRUE], Json, MT("application", "json", "charset=utf-8"), MT("text", "plain", "") }
+CTs == { [absent |-> TRUE], Json, MT("application", "json", "charset=utf-8"), MT("text", "plain", ""),
+         MT("application", "problem+json", "") }      \* a structured-suffix type is a media type of its own
 
 VARIABLE case
 Init ==
